@@ -64,6 +64,7 @@ type simOut struct {
 	Trace      []string
 	Steps      []string // state-handler steps kept for the correspondence check (sampled): mgr_case terms
 	Prefix     []string // the crashed iteration: a prefix of a model run
+	CrashDone  []string // what the crashed iteration had already changed: kinds of its successful mutating calls ("DcsSet master" for coordination writes)
 	Hosts      []string
 }
 
@@ -500,6 +501,15 @@ func simRun(in simIn) simOut {
 					if s.cur != nil && s.cur.State == stateManager {
 						pre := *s.cur
 						pre.Trans = s.w.Transcript()
+						for _, e := range pre.Trans {
+							if e.Mut && e.Err == "" {
+								if e.Host != "" {
+									out.CrashDone = append(out.CrashDone, e.Kind)
+								} else {
+									out.CrashDone = append(out.CrashDone, e.Kind+" "+e.Arg)
+								}
+							}
+						}
 						pre.FilesAfter = pre.Files
 						if !s.curTurbo {
 							out.Prefix = append(out.Prefix, mgrCases(mgrIn{}, mgrOut{Steps: []mgrStep{pre}, Cfg: s.curCfg, Hosts: s.hosts})...)
